@@ -284,3 +284,93 @@ pub fn acc(a: &Acc) {
         }
     }
 }
+
+// ---- resource limits of the four script contexts (real check_* functions, whole domains) -------
+//
+// A node with fully symbolic static figures is offered to the context's four limit checks; the
+// reference is the limit itself, written here from Bitcoin Core's consensus / standardness
+// constants: P2SH redeem script <= 520 bytes, script <= 10000 bytes, <= 201 non-push opcodes,
+// standard scriptSig <= 1650 bytes, standard P2WSH script <= 3600 bytes and <= 100 witness stack
+// items (the script itself is one of them), stack + altstack <= 1000 elements, tapscript bounded
+// by the block weight only.
+
+use miniscript::{BareCtx, Legacy, Miniscript, ScriptContext, Segwitv0, Tap, Terminal};
+type LPk = miniscript::bitcoin::PublicKey;
+
+fn any_sat_wide() -> Option<SatData> {
+    if sym::bool_() {
+        Some(SatData {
+            max_witness_stack_size: sym::u32_() as usize,
+            max_witness_stack_count: sym::u32_() as usize,
+            max_script_sig_size: sym::u32_() as usize,
+            max_exec_stack_count: sym::u32_() as usize,
+            max_exec_op_count: sym::u32_() as usize,
+        })
+    } else {
+        None
+    }
+}
+fn any_ext_wide() -> ExtData {
+    ExtData { pk_cost: sym::u32_() as usize, has_free_verify: sym::bool_(), static_ops: sym::u32_() as usize, sat_data: any_sat_wide(), dissat_data: any_sat_wide(), timelock_info: any_tl(), tree_height: sym::u8_() as usize }
+}
+
+fn limits<Ctx: ScriptContext>() -> (ExtData, [bool; 4]) {
+    let ext = any_ext_wide();
+    let ms: Miniscript<LPk, Ctx> = Miniscript::from_components_unchecked(Terminal::True, miniscript::miniscript::types::Type::TRUE, ext);
+    let r = [
+        Ctx::check_global_consensus_validity(&ms).is_ok(),
+        Ctx::check_local_consensus_validity(&ms).is_ok(),
+        Ctx::check_global_policy_validity(&ms).is_ok(),
+        Ctx::check_local_policy_validity(&ms).is_ok(),
+    ];
+    core::mem::forget(ms);
+    (ext, r)
+}
+
+fn ops_ok(e: &ExtData) -> bool {
+    match e.sat_data {
+        None => false,
+        Some(d) => e.static_ops + d.max_exec_op_count <= 201,
+    }
+}
+
+// @h c12_ctx_limits_* timeout=900 mem=8
+#[cfg_attr(kani, kani::proof)]
+pub fn c12_ctx_limits_legacy() {
+    let (e, r) = limits::<Legacy>();
+    chk!(r[0] == (e.pk_cost <= 520), "Legacy: a redeem script is accepted exactly up to 520 bytes");
+    chk!(r[1] == ops_ok(&e), "Legacy: accepted exactly when satisfiable with at most 201 opcodes");
+    chk!(r[2], "Legacy: no global policy limit");
+    chk!(r[3] == matches!(e.sat_data, Some(d) if d.max_script_sig_size <= 1650), "Legacy: accepted exactly when the worst-case scriptSig is at most 1650 bytes");
+    cover!(!r[3] && e.sat_data.is_some(), "scriptSig too large");
+    cover!(r[3], "scriptSig within limit");
+}
+
+#[cfg_attr(kani, kani::proof)]
+pub fn c12_ctx_limits_segwitv0() {
+    let (e, r) = limits::<Segwitv0>();
+    chk!(r[0] == (e.pk_cost <= 10_000), "Segwitv0: a witness script is consensus-valid exactly up to 10000 bytes");
+    chk!(r[1] == ops_ok(&e), "Segwitv0: accepted exactly when satisfiable with at most 201 opcodes");
+    chk!(r[2] == (e.pk_cost <= 3_600), "Segwitv0: a witness script is standard exactly up to 3600 bytes");
+    chk!(r[3] == matches!(e.sat_data, Some(d) if d.max_witness_stack_count + 1 <= 100), "Segwitv0: standard exactly when the witness has at most 100 items including the script");
+    cover!(!r[3] && e.sat_data.is_some(), "too many witness items");
+    cover!(r[0] && !r[2], "consensus-valid but non-standard size");
+}
+
+#[cfg_attr(kani, kani::proof)]
+pub fn c12_ctx_limits_tap() {
+    let (e, r) = limits::<Tap>();
+    chk!(r[0] == (e.pk_cost <= 4_000_000), "Tap: a leaf script is bounded by the block weight only");
+    chk!(r[1] == match e.sat_data { None => true, Some(d) => d.max_witness_stack_count + d.max_exec_stack_count <= 1000 }, "Tap: accepted exactly when initial stack plus execution stack stays within 1000 elements");
+    chk!(r[2] && r[3], "Tap: no script-level policy limits");
+    cover!(!r[1], "stack limit exceeded");
+}
+
+#[cfg_attr(kani, kani::proof)]
+pub fn c12_ctx_limits_bare() {
+    let (e, r) = limits::<BareCtx>();
+    chk!(r[0] == (e.pk_cost <= 10_000), "Bare: a script is consensus-valid exactly up to 10000 bytes");
+    chk!(r[1] == ops_ok(&e), "Bare: accepted exactly when satisfiable with at most 201 opcodes");
+    chk!(r[2] && r[3], "Bare: no further limits at this level");
+    cover!(!r[1] && e.sat_data.is_some(), "too many opcodes");
+}
